@@ -14,6 +14,8 @@
 //!   * tag_name() is Some for start / end / self-closing tokens                                sig tag-name-none
 //!   * when the input is valid UTF-8 every accessor returns Ok                                 sig accessor-fails-on-valid-utf8
 //!   * no panic (caught by the framework, debug assertions + overflow checks on)               sig panic
+//!   * RESTART: at one token boundary with err() unset (the first with a non-empty raw_tag(), else the middle one) a fresh
+//!     new_fragment(rest, raw_tag()) yields exactly the remaining tokens (theorem restart_in_context) sig restart-mismatch
 //!   * raw_tag() is "" or one of the ten raw-text element names; non-empty only after a (self-closing) start tag or in
 //!     plaintext; after a start OR SELF-CLOSING tag it is the lower-cased tag name iff that is one of the ten names
 //!     (read_start_tag assigns raw_tag before it looks at the solidus), else ""                  sig raw-tag-context
@@ -69,6 +71,8 @@ fn observe_with(input: &[u8], ctx: Option<&str>, cdata: bool) -> One {
             *f = Some((why, sig));
         }
     };
+    // (kind, raw span, raw_tag() after, err after) of every token, for the restart oracle below
+    let mut trace: Vec<(TokenType, usize, usize, String, bool)> = Vec::new();
     let mut calls = 0usize;
     loop {
         calls += 1;
@@ -172,6 +176,7 @@ fn observe_with(input: &[u8], ctx: Option<&str>, cdata: bool) -> One {
             _ => Value::Null,
         };
         toks.push(json!([kind_code(tt), start, end, payload, ctx_after, err_after]));
+        trace.push((tt, start, end, tk.raw_tag().to_string(), err_after));
         if tt == TokenType::ErrorToken {
             break;
         }
@@ -182,6 +187,40 @@ fn observe_with(input: &[u8], ctx: Option<&str>, cdata: bool) -> One {
     let rest = tk.buffered();
     if pos + rest.len() != input.len() || input[pos.min(input.len())..] != rest[..] {
         setfail(&mut fail, format!("raw spans + buffered() do not reproduce the input {}", hex(input)), "bytes-lost");
+    }
+    // RESTART oracle (implementation alone): at one token boundary where err() is unset — the first one with a non-empty
+    // raw_tag() if there is one (e.g. right after `<script src=a />`), else the middle one — a fresh
+    // `new_fragment(rest of the input, raw_tag())` must produce exactly the remaining tokens (kind, raw length, raw_tag, err)
+    if fail.is_none() && trace.len() >= 2 {
+        let k = trace.iter().position(|t| !t.3.is_empty() && !t.4).unwrap_or(trace.len() / 2 - 1);
+        let (_, _, pos_k, ctx_k, err_k) = trace[k].clone();
+        if !err_k && pos_k <= input.len() {
+            let mut tk2 = Tokenizer::new_fragment(input[pos_k..].to_vec(), ctx_k.clone());
+            if !cdata {
+                tk2.allow_cdata(false);
+            }
+            for (j, want) in trace[k + 1..].iter().enumerate() {
+                let got = match tk2.next() {
+                    Ok(t) => t,
+                    Err(_) => break,
+                };
+                let glen = tk2.raw().len();
+                if got != want.0 || glen != want.2 - want.1 || tk2.raw_tag() != want.3 || tk2.err().is_some() != want.4 {
+                    setfail(
+                        &mut fail,
+                        format!(
+                            "restart at byte {pos_k} with new_fragment(rest, {ctx_k:?}): token {j} is {:?}/{glen} bytes/raw_tag {:?}, the continued tokenizer gave {:?}/{} bytes/raw_tag {:?} on {}",
+                            kind_code(got), tk2.raw_tag(), kind_code(want.0), want.2 - want.1, want.3, hex(input)
+                        ),
+                        "restart-mismatch",
+                    );
+                    break;
+                }
+                if got == TokenType::ErrorToken {
+                    break;
+                }
+            }
+        }
     }
     let ntok = toks.len();
     One { obs: json!([toks, rest.len(), ctx0]), fail, ntok, kinds }
